@@ -126,6 +126,10 @@ func recordBytes(key string, payload []byte) []byte {
 }
 
 func fstreeKey(sp caseSpec) string {
+	if sp.Variant == "newdir" {
+		// reader scenario: every record gets a directory of its own that does not exist yet
+		return "dir-" + sp.Name + "/" + sp.Name
+	}
 	parts := []string{}
 	for i := 1; i < sp.Depth; i++ {
 		parts = append(parts, fmt.Sprintf("lvl%d", i))
